@@ -53,7 +53,8 @@ struct VecWorld : World {
     void init(const Cfg &c) override { cfg = c; es = (int)c.get("es", 4); initmax = (int)c.get("initmax"); policy = (int)c.get("policy"); threadsafe = c.get("ts") != 0; mt = c.get("mt") != 0; }
     Model *new_model() override { return new VecModel(this); }
     Bytes value(const Op &op) const { return gen_value(op.b, es, (op.d >> 3) & 7); }
-    static int index_of(int a, size_t n) { return (int)(a % (int)(2 * n + 5)) - (int)(n + 2); }
+    // index relative to the current length (sequential modes); a fixed small range when several threads run, where the length is not the caller's to read
+    static int index_of(int a, size_t n, bool mt) { if (mt) return (a % 7) - 3; return (int)(a % (int)(2 * n + 5)) - (int)(n + 2); }
     static size_t newmax_of(const Op &op, size_t n) {
         switch (op.d % 5) { case 0: return 0; case 1: return n ? (size_t)(op.a % (int)n) : 0; case 2: return n; case 3: return n + 1 + (size_t)(op.a % 5); default: return (size_t)(op.a % 12); }
     }
@@ -78,7 +79,7 @@ struct VecWorld : World {
         return R_ok(encs(got));
     }
     Result sut_apply(const Op &op, Ctx &x) override {
-        size_t n = q->num; int idx = index_of(op.a, n); int api = op.d & 7; if (api > 2) api = 2;
+        size_t n = q->num; int idx = index_of(op.a, n, mt); int api = op.d & 7; if (api > 2) api = 2;
         switch (op.k) {
         case V_ADD: {
             Bytes v = value(op); CallerBuf vb(v); bool ok;
@@ -176,7 +177,7 @@ struct VecWorld : World {
 };
 
 Result VecModel::apply(const Op &op) {
-    size_t n = v.size(); int idx = VecWorld::index_of(op.a, n); int api = op.d & 7; if (api > 2) api = 2;
+    size_t n = v.size(); int idx = VecWorld::index_of(op.a, n, w->mt); int api = op.d & 7; if (api > 2) api = 2;
     auto norm = [&](long &pos) { if (api == 0) pos = 0; else if (api == 1) pos = (long)n - 1; else { pos = idx; if (pos < 0) pos += (long)n; } return pos >= 0 && pos < (long)n; };
     switch (op.k) {
     case V_ADD: {
